@@ -108,4 +108,52 @@ var propSpecs = []propSpec{
 		outside: "longer method lists; other pools; effects of a rejected call on strict URL building",
 		stubs:   stdStubs,
 	},
+	{
+		id: "C09",
+		runs: []runSpec{
+			{dir: "mux", entry: "ZZC09", quick: []int{1, 2, 3, 103}, thorough: []int{1, 2, 3, 4, 104}, mapRev: true},
+			{dir: "mux", entry: "ZZC09Grp", quick: []int{2, 3, 4}, thorough: []int{2, 3, 4, 5, 6}},
+		},
+		covers:  []string{"program", "use-and-routes", "group-program", "group-router-A", "group-router-B"},
+		bounds:  "every program of <= 3 calls from 9 operations (Use with 1 or 2 middlewares, Handle with 2 route middlewares, Post without, Prefix with 2 + route middleware, nested Prefix.Prefix, Resource (GET with and POST without route middleware), Prefix.Resource, Any), with and without WithTrace and in both map iteration orders; every group program of <= 4 calls from 6 operations (Group.Use, Group.New, Group.Add of a router with its own Use and route, Handle, router Use, Prefix(\"\").Post); then every handler kind of every route (methods, HEAD, OPTIONS, 405, 404, OPTIONS *, TRACE, group not-found) is invoked and its middleware chain, factory arguments and the factory invocation count are compared with the documented order computed from the program text",
+		boundsT: "programs of <= 4 calls, group programs of <= 6 calls",
+		outside: "longer programs; removal of routes between Use calls; this property has no data dimension: the verdict is an exhaustive bounded exploration of the real SSA by forking on operation selectors, the solver only confirms path feasibility",
+		stubs:   stdStubs,
+	},
+	{
+		id: "C10",
+		runs: []runSpec{
+			{dir: "mux", entry: "ZZC10", quick: []int{3, 103, 203}, thorough: []int{4, 104, 204}},
+			{dir: "mux", entry: "ZZC10RT", quick: []int{8}, thorough: []int{10}},
+		},
+		covers:  []string{"non-empty-params", "strict-must-fail", "strict-must-succeed", "round-trip", "round-trip-with-params"},
+		bounds:  "14 patterns (7 live routes covering regexp, named, digit/word interceptors, ignored name, regexp + literal suffix; an inner tree node, an unregistered pattern, a prefix of a live route; 4 malformed classes) x every params map (each key present or absent with every value of <= 3 bytes, optional extra key, empty map) x strict/non-strict x 3 URL-domain settings; round trip: every request path of <= 8 bytes dispatched by a 9-route router, rebuilt with URL and strict Router.URL from the captured parameters",
+		boundsT: "values <= 4 bytes, round-trip paths <= 10 bytes",
+		outside: "other patterns; regexp rules with alternations whose leftmost-first match is shorter than a full match; Prefix.URL / Resource.URL (C19)",
+		stubs:   stdStubs,
+	},
+	{
+		id: "C11",
+		runs: []runSpec{
+			{dir: "mux", entry: "ZZC11", quick: []int{10001, 10101, 10203, 10303, 11001, 11101, 11203, 11303, 12001, 12101, 12203, 12303, 13001, 13101, 13203, 13303, 14001, 14101, 14203, 14303},
+				thorough: []int{10002, 10102, 10205, 10305, 11002, 11102, 11205, 11305, 12002, 12102, 12205, 12305, 13002, 13102, 13205, 13305, 14002, 14102, 14205, 14305}},
+		},
+		covers:  []string{"deny", "404-405", "preflight-unserved-method", "preflight-disallowed-header"},
+		bounds:  "5 origin lists x 4 allow-header lists x 3 (exposed, credentials, max-age) settings with max-age a symbolic int in [1,99999]; requests: GET/HEAD/POST/OPTIONS/empty method on a live route, OPTIONS *, an unknown path; Origin absent or every string of <= 2 bytes (so it can equal a configured origin); Access-Control-Request-Method absent / GET / PUT / every string of <= 3 bytes; Access-Control-Request-Headers absent, 4 fixed spellings (lower case, lists, mixed case with spaces) and every string of <= 3 visible-ASCII/HTAB bytes (<= 1 for the configurations without an allow-list); reference: own list parser (split on ',', trim OWS, ASCII case-insensitive)",
+		boundsT: "free Access-Control-Request-Headers <= 5 bytes",
+		outside: "header values with bytes outside visible ASCII / HTAB; longer free header values; origins longer than 2 bytes",
+		stubs:   append(append([]string{}, stdStubs...), "strings.TrimSpace: byte-wise model exact for ASCII; strconv.Itoa on the symbolic max-age: digit-wise model"),
+	},
+	{
+		id: "C12",
+		runs: []runSpec{
+			{dir: "mux", entry: "ZZC11", quick: []int{21001, 21101, 21203, 21303, 22001, 22101, 22203, 22303, 23001, 23101, 23203, 23303, 24001, 24101, 24203, 24303},
+				thorough: []int{21002, 21102, 21205, 21305, 22002, 22102, 22205, 22305, 23002, 23102, 23205, 23305, 24002, 24102, 24205, 24305}},
+		},
+		covers:  []string{"grant", "preflight-grant", "not-a-preflight"},
+		bounds:  "as C11 restricted to the 4 non-empty origin lists; asserted: Allow-Origin/Credentials/Expose-Headers exactly as configured for allowed origins, Allow-Methods = the route's Allow set, Allow-Headers and Max-Age (symbolic int, compared through strconv.Itoa) on accepted preflights only, Vary naming Origin / Access-Control-Request-Method / Access-Control-Request-Headers",
+		boundsT: "free Access-Control-Request-Headers <= 5 bytes",
+		outside: "as C11; header lists with empty elements are not required to be granted",
+		stubs:   append(append([]string{}, stdStubs...), "strings.TrimSpace, strings.EqualFold (from its own SSA, ASCII path); strconv.Itoa digit-wise model"),
+	},
 }
